@@ -17,7 +17,7 @@ import (
 var (
 	argNames = []string{"a", "b", "ab", "ba", "Ab", "c"}
 	hdrNames = []string{"x-h1", "x-h2", "X-H1", "x-k"}
-	values   = []string{"x", "y", "xy", "yx", "xx", ""}
+	values   = []string{"x", "xy", "yx", "xx", "x", "y", ""}
 	tagPool  = []string{"t1", "t2", "t3"}
 	msgPool  = []string{"m1", "m2"}
 	lits     = []string{"x", "y", "xy"}
@@ -32,18 +32,18 @@ func genKey(r *rand.Rand, v string) keyJ {
 	case "REQUEST_METHOD":
 		return keyJ{K: "none"}
 	case "REQUEST_HEADERS":
-		switch r.Intn(4) {
-		case 0:
+		switch r.Intn(6) {
+		case 0, 1, 2:
 			return keyJ{K: "none"}
-		case 1:
+		case 3:
 			return keyJ{K: "rx", V: pick(r, rxHdr)}
 		}
 		return keyJ{K: "str", V: pick(r, hdrNames)}
 	}
-	switch r.Intn(5) {
-	case 0, 1:
+	switch r.Intn(6) {
+	case 0, 1, 2:
 		return keyJ{K: "none"}
-	case 2:
+	case 3:
 		return keyJ{K: "rx", V: pick(r, rxArg)}
 	}
 	return keyJ{K: "str", V: pick(r, argNames)}
@@ -101,15 +101,17 @@ func genOp(r *rand.Rand, ts []titemJ) opJ {
 			return opJ{Neg: r.Intn(2) == 0, K: "streq", Lit: fmt.Sprint(r.Intn(3))}
 		}
 	}
-	switch r.Intn(10) {
-	case 0:
+	switch r.Intn(20) {
+	case 0, 1:
 		return opJ{K: "always"}
-	case 1:
-		return opJ{K: "streq", Lit: pick(r, values[:5])}
 	case 2:
+		return opJ{K: "streq", Lit: pick(r, values[:5])}
+	case 3, 4:
 		return opJ{Neg: true, K: "contains", Lit: pick(r, lits)}
+	case 5, 6:
+		return opJ{K: "contains", Lit: pick(r, lits)}
 	}
-	return opJ{K: "contains", Lit: pick(r, lits)}
+	return opJ{K: "contains", Lit: "x"}
 }
 
 func genLink(r *rand.Rand) linkJ {
@@ -118,16 +120,16 @@ func genLink(r *rand.Rand) linkJ {
 }
 
 func genDisr(r *rand.Rand) []actJ {
-	switch r.Intn(12) {
+	switch r.Intn(24) {
 	case 0, 1:
 		return []actJ{{A: "disr", V: "deny"}}
 	case 2:
 		return []actJ{{A: "disr", V: "deny"}, {A: "status", N: 500 + r.Intn(4)}}
 	case 3:
 		return []actJ{{A: "status", N: 410}, {A: "disr", V: "drop"}}
-	case 4:
+	case 4, 5:
 		return nil // phase default / none
-	case 5:
+	case 6, 7:
 		return []actJ{{A: "disr", V: "block"}}
 	}
 	return []actJ{{A: "disr", V: "pass"}}
@@ -152,13 +154,13 @@ func genBase(r *rand.Rand, wantMarkers bool) baseSet {
 	}
 	var b baseSet
 	b.ids = ids
-	if r.Intn(6) == 0 {
-		b.dflt = append(b.dflt, dfltJ{Phase: 1 + r.Intn(2), Disr: pick(r, []string{"deny", "pass", "deny"})})
+	if r.Intn(10) == 0 {
+		b.dflt = append(b.dflt, dfltJ{Phase: 1 + r.Intn(2), Disr: pick(r, []string{"deny", "pass"})})
 	}
 	for _, id := range ids {
 		it := itemJ{ID: id, Phase: 1 + r.Intn(2)}
 		nl := 1
-		if r.Intn(4) == 0 {
+		if r.Intn(5) == 0 {
 			nl = 2 + r.Intn(2)
 		}
 		for j := 0; j < nl; j++ {
@@ -173,8 +175,14 @@ func genBase(r *rand.Rand, wantMarkers bool) baseSet {
 					l.Acts = append(l.Acts, actJ{A: "msg", V: pick(r, msgPool)})
 				}
 				l.Acts = append(l.Acts, genDisr(r)...)
-				if r.Intn(5) == 0 {
+				switch r.Intn(25) {
+				case 0, 1, 2, 3, 4:
 					l.Acts = append(l.Acts, actJ{A: "nop"})
+				case 5:
+					// a second disruptive action (both stay in the rule's action list), a second msg (last wins)
+					l.Acts = append(l.Acts, actJ{A: "disr", V: pick(r, []string{"pass", "deny"})}, actJ{A: "msg", V: pick(r, msgPool)})
+				case 6:
+					l.Acts = append(l.Acts, actJ{A: "status", N: 400 + r.Intn(3)})
 				}
 			} else if r.Intn(3) == 0 {
 				l.Acts = append(l.Acts, actJ{A: "tag", V: pick(r, tagPool)})
@@ -205,7 +213,7 @@ func genBase(r *rand.Rand, wantMarkers bool) baseSet {
 }
 
 func (b baseSet) someID(r *rand.Rand) int {
-	if r.Intn(8) == 0 {
+	if r.Intn(12) == 0 {
 		return 15 + r.Intn(4) // unknown id
 	}
 	return b.ids[r.Intn(len(b.ids))]
@@ -214,7 +222,7 @@ func (b baseSet) someID(r *rand.Rand) int {
 func (b baseSet) genSpecs(r *rand.Rand, zero bool) ([]specJ, string) {
 	rng := func() specJ {
 		a, c := b.someID(r), b.someID(r)
-		if a > c && r.Intn(10) != 0 {
+		if a > c && r.Intn(25) != 0 {
 			a, c = c, a
 		}
 		if zero {
@@ -266,20 +274,20 @@ func genUpdItems(r *rand.Rand) ([]titemJ, string) {
 }
 
 func genUpdActs(r *rand.Rand, b baseSet) ([]actJ, string) {
-	switch r.Intn(9) {
-	case 0, 1:
+	switch r.Intn(14) {
+	case 0, 1, 2, 3:
 		return []actJ{{A: "disr", V: "deny"}}, "deny"
-	case 2:
+	case 4, 5:
 		return []actJ{{A: "disr", V: "deny"}, {A: "status", N: 500 + r.Intn(4)}}, "deny+status"
-	case 3:
-		return []actJ{{A: "disr", V: "pass"}}, "pass"
-	case 4:
-		return []actJ{{A: "status", N: 418}}, "status"
-	case 5:
-		return []actJ{{A: "tag", V: pick(r, tagPool)}, {A: "nop"}}, "tag"
 	case 6:
-		return []actJ{{A: "disr", V: "drop"}, {A: "msg", V: pick(r, msgPool)}}, "drop+msg"
+		return []actJ{{A: "disr", V: "pass"}}, "pass"
 	case 7:
+		return []actJ{{A: "status", N: 418}}, "status"
+	case 8:
+		return []actJ{{A: "tag", V: pick(r, tagPool)}, {A: "nop"}}, "tag"
+	case 9, 10:
+		return []actJ{{A: "disr", V: "drop"}, {A: "msg", V: pick(r, msgPool)}}, "drop+msg"
+	case 11, 12:
 		if len(b.markers) > 0 {
 			return []actJ{{A: "skipAfter", V: b.markers[len(b.markers)-1]}}, "skipAfter"
 		}
@@ -292,11 +300,17 @@ func genReqs(r *rand.Rand, n int, trigger []string) []reqJ {
 	var out []reqJ
 	for i := 0; i < n; i++ {
 		rq := reqJ{Method: pick(r, []string{"GET", "POST", "xy"})}
-		na := r.Intn(5)
+		na := 2 + r.Intn(4)
+		if r.Intn(10) == 0 {
+			na = 0
+		}
 		for j := 0; j < na; j++ {
 			rq.Args = append(rq.Args, [2]string{pick(r, argNames), pick(r, values)})
 		}
-		nh := r.Intn(4)
+		nh := 2 + r.Intn(3)
+		if r.Intn(10) == 0 {
+			nh = 0
+		}
 		for j := 0; j < nh; j++ {
 			rq.Headers = append(rq.Headers, [2]string{pick(r, hdrNames), pick(r, values)})
 		}
@@ -318,8 +332,16 @@ func genCtl(r *rand.Rand, b baseSet, zero bool) (*ctlJ, string) {
 	}
 	tgt := func(c *ctlJ) {
 		v := genVar(r)
+		if r.Intn(4) != 0 {
+			// aim at a variable some rule really uses
+			it := b.src[r.Intn(len(b.src))]
+			if it.Marker == "" {
+				l := it.Links[r.Intn(len(it.Links))]
+				v = l.Targets[r.Intn(len(l.Targets))].Var
+			}
+		}
 		k := genKey(r, v)
-		if k.K == "none" && r.Intn(3) != 0 && v != "REQUEST_METHOD" {
+		if k.K == "none" && r.Intn(2) != 0 && v != "REQUEST_METHOD" {
 			k = genNeg(r, v).Key
 		}
 		c.Var, c.Key = v, &k
@@ -356,7 +378,11 @@ func generate(cfg vh.Config) []*caseJ {
 		zero := wantMarkers && r.Intn(3) == 0
 		c := &caseJ{Dflt: b.dflt, Src: b.src}
 		trigger := []string{}
-		switch k := r.Intn(20); {
+		k := r.Intn(20)
+		if k < 14 && r.Intn(3) != 0 {
+			soften(r, c)
+		}
+		switch {
 		case k < 4:
 			ss, sh := b.genSpecs(r, zero)
 			c.Dir = &dirJ{Kind: "rmId", Specs: ss, Quoted: r.Intn(4) == 0}
@@ -382,7 +408,9 @@ func generate(cfg vh.Config) []*caseJ {
 			c.Dir = &dirJ{Kind: "updActionId", Specs: ss, Acts: acts}
 			c.Shape = "updActionId/" + sh + "/" + ash
 		default:
-			// run-time counterpart: a phase-1 (sometimes phase-2) trigger rule at a random position
+			// run-time counterpart: a phase-1 (sometimes phase-2) trigger rule at a random position;
+			// early denies would hide every later effect, most of them become pass here
+			soften(r, c)
 			nt := 1
 			if r.Intn(6) == 0 {
 				nt = 2
@@ -401,7 +429,7 @@ func generate(cfg vh.Config) []*caseJ {
 					shape += "+" + sh2
 				}
 				ph := 1
-				if r.Intn(5) == 0 {
+				if r.Intn(8) == 0 {
 					ph = 2
 				}
 				it := itemJ{ID: 90 + t, Phase: ph, Links: []linkJ{l}}
@@ -416,8 +444,8 @@ func generate(cfg vh.Config) []*caseJ {
 					shape += "(chain)"
 				}
 				pos := r.Intn(len(c.Src) + 1)
-				if r.Intn(2) == 0 {
-					pos = 0
+				if r.Intn(3) != 0 {
+					pos = r.Intn(2)
 				}
 				c.Src = append(c.Src[:pos], append([]itemJ{it}, c.Src[pos:]...)...)
 			}
@@ -427,4 +455,22 @@ func generate(cfg vh.Config) []*caseJ {
 		out = append(out, c)
 	}
 	return out
+}
+
+// soften turns most early deny/drop actions into pass (an early interruption hides every later effect).
+func soften(r *rand.Rand, c *caseJ) {
+	for j := range c.Src {
+		if c.Src[j].Marker != "" || r.Intn(5) == 0 {
+			continue
+		}
+		h := &c.Src[j].Links[0]
+		for a := range h.Acts {
+			if h.Acts[a].A == "disr" && (h.Acts[a].V == "deny" || h.Acts[a].V == "drop") && j+2 < len(c.Src) {
+				h.Acts[a].V = "pass"
+			}
+		}
+	}
+	if len(c.Dflt) > 0 && r.Intn(3) != 0 {
+		c.Dflt = nil
+	}
 }
